@@ -58,12 +58,26 @@ def props_file(prop: str) -> str:
     return os.path.join(LEAN_DIR, "FcProofs", "Props", f"{prop}.lean")
 
 
+def props_modules(prop: str) -> list[str]:
+    """property theorems live in FcProofs/Props/Cxx.lean and, optionally, FcProofs/Props/Cxx_<Topic>.lean"""
+    d = os.path.join(LEAN_DIR, "FcProofs", "Props")
+    out = []
+    if os.path.exists(os.path.join(d, f"{prop}.lean")):
+        out.append(f"FcProofs.Props.{prop}")
+    if os.path.isdir(d):
+        for f in sorted(os.listdir(d)):
+            if f.startswith(prop + "_") and f.endswith(".lean"):
+                out.append("FcProofs.Props." + f[:-5])
+    return out
+
+
 def theorem_names(prop: str) -> list[str]:
-    p = props_file(prop)
-    if not os.path.exists(p):
-        return []
-    src = _strip_comments(open(p, encoding="utf-8").read())
-    return re.findall(r"^\s*theorem\s+(" + prop + r"_\w+)", src, flags=re.M)
+    names = []
+    for m in props_modules(prop):
+        p = os.path.join(LEAN_DIR, *m.split(".")) + ".lean"
+        src = _strip_comments(open(p, encoding="utf-8").read())
+        names += re.findall(r"^\s*theorem\s+(" + prop + r"_\w+)", src, flags=re.M)
+    return names
 
 
 def axioms_audit(prop: str) -> dict:
@@ -75,7 +89,8 @@ def axioms_audit(prop: str) -> dict:
     os.makedirs(d, exist_ok=True)
     f = os.path.join(d, f"Audit_{prop}_{os.getpid()}.lean")
     with open(f, "w") as fh:
-        fh.write(f"import FcProofs.Props.{prop}\n")
+        for m in props_modules(prop):
+            fh.write(f"import {m}\n")
         for n in names:
             fh.write(f"#print axioms Fc.{n}\n")
     try:
